@@ -378,6 +378,18 @@ func (w *c06World) genTxs() {
 				tx.Rcpts = append(tx.Rcpts, r)
 			}
 		}
+		if s.T.Choose(st, 4) == 0 {
+			// the client repeats one of its RCPT commands (after a refusal: tries
+			// again; after an acceptance: names the recipient twice) - a verdict
+			// holds for every command that names the recipient
+			at := s.T.Choose(st, len(tx.Rcpts))
+			rep := tx.Rcpts[at]
+			if s.T.Choose(st, 2) == 0 {
+				tx.Rcpts = append(tx.Rcpts, rep)
+			} else {
+				tx.Rcpts = append(tx.Rcpts[:at+1], append([]string{rep}, tx.Rcpts[at+1:]...)...)
+			}
+		}
 		ctx := &c06Tx{cTx: tx, plans: map[string]*actors.CheckPlan{}}
 		ctx.dm = []string{"", "norecord", "p-none", "quarantine", "quarantine", "reject", "tempfail"}[s.T.Choose(st, 7)]
 		ctx.auth = []string{"fail", "fail", "dkim-pass", "spf-pass", "absent"}[s.T.Choose(st, 5)]
